@@ -2,7 +2,7 @@
 //!  * C15: multi-MiB boxed constructions on a thread with a 256 KiB stack;
 //!  * C16: the j-th library allocation of an operation returns null (one case per child).
 
-use crate::driver::{harness_error, run_child, VERIF};
+use crate::driver::{harness_error, run_child, verif_root};
 use crate::elem::ElemKind;
 use crate::ops::OpKind::*;
 use crate::ops::*;
@@ -220,11 +220,11 @@ pub fn small_stack_lane() -> (Option<String>, Value) {
         let ok = end.code == Some(0);
         results.insert(case.to_string(), json!(if ok { "completed, contents correct".to_string() } else { format!("FAILED code={:?} signal={:?} {}", end.code, end.signal, end.stderr_tail) }));
         if !ok && violation.is_none() {
-            let p = format!("{VERIF}/replays/C15-small-stack-{case}.json");
+            let p = format!("{}/replays/C15-small-stack-{case}.json", verif_root());
             let class = if end.signal.is_some() { "C15-big-array-overflows-small-stack" } else { "C15-big-array-wrong-contents" };
             let j = json!({"format": 1, "property": "C15", "lane": "small_stack", "case": case,
                 "violation": {"class": class, "detail": format!("{case} on a thread with a {SMALL_STACK}-byte stack: code={:?} signal={:?} {}", end.code, end.signal, end.stderr_tail)}});
-            let _ = std::fs::create_dir_all(format!("{VERIF}/replays"));
+            let _ = std::fs::create_dir_all(format!("{}/replays", verif_root()));
             std::fs::write(&p, serde_json::to_string_pretty(&j).unwrap()).unwrap_or_else(|e| harness_error(&format!("{p}: {e}")));
             println!("violation (small-stack lane): {case}: code={:?} signal={:?} {}", end.code, end.signal, end.stderr_tail);
             violation = Some(p);
@@ -283,7 +283,7 @@ pub enum AfVerdict {
 }
 
 fn write_tmp_trace(t: &Trace, tag: &str) -> std::path::PathBuf {
-    let dir = std::path::PathBuf::from(format!("{VERIF}/target/tmp/af-{}", std::process::id()));
+    let dir = std::path::PathBuf::from(format!("{}/target/tmp/af-{}", verif_root(), std::process::id()));
     std::fs::create_dir_all(&dir).unwrap_or_else(|e| harness_error(&format!("{dir:?}: {e}")));
     static SEQ: std::sync::atomic::AtomicUsize = std::sync::atomic::AtomicUsize::new(0);
     let p = dir.join(format!("{tag}-{}.json", SEQ.fetch_add(1, std::sync::atomic::Ordering::Relaxed)));
@@ -408,12 +408,12 @@ pub fn alloc_failure_lane(seed: u64, tier: &str) -> (Option<String>, Value) {
                     continue;
                 }
                 if violation.is_none() {
-                    let p = format!("{VERIF}/replays/C16-alloc-failure-{}-{}-{}-j{}.json", last.kind.name(), last.args[0], t.elem.name(), j);
+                    let p = format!("{}/replays/C16-alloc-failure-{}-{}-{}-j{}.json", verif_root(), last.kind.name(), last.args[0], t.elem.name(), j);
                     let mut jv = trace_to_json(t);
                     jv["lane"] = json!("alloc_failure");
                     jv["fail_alloc"] = json!(j);
                     jv["violation"] = json!({"class": class, "detail": detail, "key": key});
-                    let _ = std::fs::create_dir_all(format!("{VERIF}/replays"));
+                    let _ = std::fs::create_dir_all(format!("{}/replays", verif_root()));
                     std::fs::write(&p, serde_json::to_string_pretty(&jv).unwrap()).unwrap_or_else(|e| harness_error(&format!("{p}: {e}")));
                     println!("violation (allocation-failure lane): {} (elem {}) allocation {j}: {class}: {detail}", serde_json::to_string(&jv["ops"]).unwrap(), t.elem.name());
                     violation = Some(p);
@@ -425,7 +425,7 @@ pub fn alloc_failure_lane(seed: u64, tier: &str) -> (Option<String>, Value) {
         let what = known.iter().find(|x| &x.key == k).map(|x| x.what.clone()).unwrap_or_default();
         println!("KNOWN-FINDING: property=C16 {k} ({hits} cases): {what}");
     }
-    let _ = std::fs::remove_dir_all(format!("{VERIF}/target/tmp/af-{}", std::process::id()));
+    let _ = std::fs::remove_dir_all(format!("{}/target/tmp/af-{}", verif_root(), std::process::id()));
     (
         violation,
         json!({"traces": traces.len(), "traces_whose_last_operation_allocates": with_allocs, "child_processes_with_one_allocation_failing": cases,
@@ -465,7 +465,7 @@ pub fn miri_lane(prop: Prop, seed: u64, procs: usize, runs_each: u64) -> (Option
         let from = w as u64 * runs_each;
         let to = from + runs_each;
         let mut c = Command::new("cargo");
-        c.args(["+nightly", "miri", "run", "--offline", "--manifest-path", "/verif/sim/Cargo.toml", "--", "miri-runs", prop.name(), &seed.to_string(), &from.to_string(), &to.to_string()])
+        c.args(["+nightly", "miri", "run", "--offline", "--manifest-path", &format!("{}/sim/Cargo.toml", verif_root()), "--", "miri-runs", prop.name(), &seed.to_string(), &from.to_string(), &to.to_string()])
             .env("MIRIFLAGS", "-Zmiri-ignore-leaks")
             .env("CARGO_NET_OFFLINE", "true")
             .env("RUST_BACKTRACE", "0")
@@ -502,8 +502,8 @@ pub fn miri_lane(prop: Prop, seed: u64, procs: usize, runs_each: u64) -> (Option
             // a ledger violation seen under Miri: the recorded trace replays natively
             let j: Value = serde_json::from_str(&l["MIRI-VIOLATION ".len()..]).unwrap_or(Value::Null);
             if violation.is_none() {
-                let p = format!("{VERIF}/replays/{}-miri-{}.json", prop.name(), j["seed"].as_u64().unwrap_or(0));
-                let _ = std::fs::create_dir_all(format!("{VERIF}/replays"));
+                let p = format!("{}/replays/{}-miri-{}.json", verif_root(), prop.name(), j["seed"].as_u64().unwrap_or(0));
+                let _ = std::fs::create_dir_all(format!("{}/replays", verif_root()));
                 std::fs::write(&p, serde_json::to_string_pretty(&j).unwrap()).unwrap_or_else(|e| harness_error(&format!("{p}: {e}")));
                 println!("violation (Miri lane, ledger): {} — {}", j["violation"]["class"].as_str().unwrap_or(""), j["violation"]["detail"].as_str().unwrap_or(""));
                 violation = Some(p);
@@ -521,8 +521,8 @@ pub fn miri_lane(prop: Prop, seed: u64, procs: usize, runs_each: u64) -> (Option
                 let mut j = trace_to_json(&t);
                 j["lane"] = json!("miri");
                 j["violation"] = json!({"class": "miri-undefined-behavior", "detail": format!("{line} {wher}")});
-                let p = format!("{VERIF}/replays/{}-miri-ub-{}.json", prop.name(), rseed);
-                let _ = std::fs::create_dir_all(format!("{VERIF}/replays"));
+                let p = format!("{}/replays/{}-miri-ub-{}.json", verif_root(), prop.name(), rseed);
+                let _ = std::fs::create_dir_all(format!("{}/replays", verif_root()));
                 std::fs::write(&p, serde_json::to_string_pretty(&j).unwrap()).unwrap_or_else(|e| harness_error(&format!("{p}: {e}")));
                 println!("violation (Miri lane): run {run}: {line} {wher}");
                 violation = Some(p);
@@ -541,7 +541,7 @@ pub fn miri_lane(prop: Prop, seed: u64, procs: usize, runs_each: u64) -> (Option
 pub fn replay_miri(file: &std::path::Path) -> i32 {
     use std::process::Command;
     let o = Command::new("cargo")
-        .args(["+nightly", "miri", "run", "--offline", "--manifest-path", "/verif/sim/Cargo.toml", "--", "exec", &file.to_string_lossy()])
+        .args(["+nightly", "miri", "run", "--offline", "--manifest-path", &format!("{}/sim/Cargo.toml", verif_root()), "--", "exec", &file.to_string_lossy()])
         .env("MIRIFLAGS", "-Zmiri-ignore-leaks")
         .env("CARGO_NET_OFFLINE", "true")
         .env_remove("CARGO_TARGET_DIR")
